@@ -56,7 +56,7 @@ def num(x):
 
 def build_rare(md, spec):
     """>= 24 copies of one protein frame (tiny per-frame jitter) in which a few hydrogen bonds exist in only 1-2 frames:
-    in every other frame the bonded hydrogen is reflected through its donor, which breaks the bond.  Anything that
+    in every other frame the bonded hydrogen is reflected through its donor and the acceptor is pushed 0.3 nm away.  Anything that
     prefilters or aggregates over the frames of a call (frequency thresholds, candidate lists) sees these as rare events."""
     base = md.load(spec["path"])[spec["frame"]]
     bonds = md.wernet_nilsson(base, periodic=False)[0]
@@ -68,7 +68,9 @@ def build_rare(md, spec):
     for f in range(F):
         if f not in event_frames:
             for d, hh, a in pick:
-                xyz[f, hh] = 2 * xyz[f, d] - xyz[f, hh]
+                xyz[f, hh] = 2 * xyz[f, d] - xyz[f, hh]            # H...A distance and D-H...A angle out of range
+                u = xyz[f, a] - xyz[f, d]
+                xyz[f, a] = xyz[f, a] + 0.3 * u / np.linalg.norm(u)   # D...A distance out of range as well
     xyz += rng.normal(0, 2e-4, size=xyz.shape)
     return md.Trajectory(xyz.astype(np.float32), base.topology)
 
@@ -89,7 +91,10 @@ def build(md, spec):
             if i % 4 == 0:
                 res = top.add_residue("ALA", ch)
             top.add_atom(["N", "CA", "C", "O"][i % 4], [E.nitrogen, E.carbon, E.carbon, E.oxygen][i % 4], res)
-        base = rng.uniform(0, 2.0, size=(1, n, 3))
+        if spec.get("cell") or spec.get("cell_series"):
+            base = rng.uniform(-1.0, 4.5, size=(1, n, 3))      # atoms reach well outside the cell: every image matters
+        else:
+            base = rng.uniform(0, 2.0, size=(1, n, 3))
         xyz = (base + rng.normal(0, 0.15, size=(F, n, 3))).astype(np.float32)
         t = md.Trajectory(xyz, top)
     if spec.get("cell_series") == "one-component":
@@ -104,7 +109,7 @@ def build(md, spec):
         rng.shuffle(comps)
         cur = base.copy()
         for f in range(F):
-            if f > 0:
+            if f > 0 and not spec.get("cell_constant"):
                 i, j = comps[(f - 1) % 6]
                 cur = cur.copy()
                 cur[i, j] += rng.choice([-1, 1]) * rng.uniform(0.25, 0.5)
@@ -251,9 +256,9 @@ def prime(md, t, spec):
         V[:, 2, 2] *= 0.83
         V[:, 2, 1] += 0.37
         V[:, 2, 0] -= 0.29
-        other.unitcell_vectors = V.astype(np.float32)        # same a vector and b_x, everything else different
+        other.unitcell_vectors = (V * 1.13).astype(np.float32)   # first a completely different cell ...
         same_atoms = t.slice(slice(None), copy=True)
-        same_atoms.unitcell_vectors = V.astype(np.float32)
+        same_atoms.unitcell_vectors = V.astype(np.float32)       # ... then one with the same a vector and b_x, rest different
     else:
         same_atoms = None
     done = 0
